@@ -10,4 +10,5 @@ var verifHarnesses = map[string]func(){
 	"VerifC16Routing":    VerifC16Routing,
 	"VerifC16Concurrent": VerifC16Concurrent,
 	"VerifC16Emissions":  VerifC16Emissions,
+	"VerifC16Targets":    VerifC16Targets,
 }
